@@ -1,6 +1,7 @@
 package seq
 
 import (
+	"context"
 	"encoding/json"
 	"fmt"
 	"os"
@@ -424,6 +425,7 @@ func TestSeq(t *testing.T) {
 		shardReplay(t, hs, res)
 	}
 	if prop == "C13" {
+		neverLockedProbe(t, res)
 		gcMetamorphic(t, hs, res)
 	}
 	if prop == "C07" {
@@ -751,4 +753,41 @@ func inertMetamorphic(t *testing.T, hs []*History, res *common.Result) {
 			})
 		}
 	})
+}
+
+
+// neverLockedProbe (C13): a lock object that was created but never locked - its only request was a
+// blocking Lock whose caller had already gone away - is an unheld lock like any other: it is collected
+// only after it has been idle for the minimum time. Until then a request with another size is refused
+// with LockSizeMismatch. (M2 has no "context already cancelled" request, so this runs beside the
+// differential histories, on the real server in virtual time.)
+func neverLockedProbe(t *testing.T, res *common.Result) {
+	for _, mi := range []time.Duration{time.Hour, 10 * time.Second} {
+		mi := mi
+		synctest.Test(t, func(t *testing.T) {
+			cfg := impl.Cfg{Shards: 4, GcInt: time.Second, GcIdle: mi, Dlt: 10 * time.Minute}
+			im := impl.New(cfg, common.TempDir())
+			defer im.Close()
+			ctx, cancel := context.WithCancel(context.Background())
+			_, sctx := im.LS.CreateSession(ctx, map[string]any{})
+			cancel()
+			synctest.Wait()
+			two, three := int32(2), int32(3)
+			lk, err := im.LS.Lock(sctx, "never-locked", &two, nil, nil)
+			res.Count("never-locked-probe")
+			res.Eval(fmt.Sprintf("never-locked-probe|min-idle=%v", mi), true)
+			if err == nil && lk != nil && lk.Locked {
+				return // granted to a caller that is gone: C03 / C06 report that
+			}
+			time.Sleep(5 * time.Second) // five collection passes, well inside the minimum idle time
+			synctest.Wait()
+			_, octx := im.LS.CreateSession(context.Background(), map[string]any{})
+			lk2, err2 := im.LS.TryLock(octx, "never-locked", &three, nil)
+			if impl.ErrName(err2) != "LockSizeMismatch" {
+				res.Find(common.Finding{Kind: "violation", Property: "C13", Signature: "seq:gc:never-locked-collected-before-min-idle",
+					What: fmt.Sprintf("lock \"never-locked\" was created with size 2 by a Lock whose caller had gone away (answer: %v), idled for 5 s with a minimum idle time of %v, and a TryLock with size 3 then answered locked=%v err=%s instead of LockSizeMismatch: the lock was collected before it had been idle for the minimum time", err, mi, lk2 != nil && lk2.Locked, impl.ErrName(err2)),
+					Replay: map[string]any{"cfg": cfg.Line(), "ops": []string{"connect s1", "disconnect s1 (context cancelled)", "lock s1 never-locked size=2 -> " + impl.ErrName(err), "adv 5s", "trylock s2 never-locked size=3 -> " + impl.ErrName(err2)}}})
+			}
+		})
+	}
 }
